@@ -284,9 +284,13 @@ def r08_1(ck: Check) -> None:
                 detail = "%s are not rebuilt by a comprehension" % coll
                 break
             it = a[3][0][0]
-            if not (it[0] == "call" and it[1] == ("g", "builtin:sorted") and len(it[2]) == 1
-                    and it[2][0] == ("call", ("a", ("a", ("e", dom, 1), coll), "items"), (), ())
-                    and dict(it[3]).get("key") in POSITION_KEYS and a[2] == ("e", it, 1)):
+            d_ = ("a", ("e", dom, 1), coll)
+            # the same order written over the keys: [d[k] for k in sorted(d)]
+            by_keys = (it[0] == "call" and it[1] == ("g", "builtin:sorted") and len(it[2]) == 1 and not it[3]
+                       and it[2][0] in (d_, ("call", ("a", d_, "keys"), (), ())) and a[2] == ("s", d_, ("e", it, "elem")) and not a[3][0][1])
+            if not by_keys and not (it[0] == "call" and it[1] == ("g", "builtin:sorted") and len(it[2]) == 1
+                                    and it[2][0] == ("call", ("a", ("a", ("e", dom, 1), coll), "items"), (), ())
+                                    and dict(it[3]).get("key") in POSITION_KEYS and a[2] == ("e", it, 1)):
                 good = False
                 detail = "%s are not taken from sorted(builder.%s.items(), key=position) values" % (coll, coll)
                 break
